@@ -1067,12 +1067,28 @@ theorem barInit_spec {h : Heap} (hg : Good X h) (tag : Nat) {s : Nat} (num den k
   have t := barBody_spec (o := o) s1.good tag num den (hs.mono s1.pres)
   exact ⟨s1.trans t, ib.mono t.pres⟩
 
-/-- `Bar.copy()`: no hypothesis on the source bar -/
-theorem barCopy_spec {h : Heap} (hg : Good X h) (tag : Nat) (b : Nat) :
-    Spec X h (barCopy o tag h b).1 ∧ In X (barCopy o tag h b).1 (.bar, (barCopy o tag h b).2) := by
-  obtain ⟨s1, i1⟩ := seqCopy_spec (X := X) hg (h.bar b).seq
-  obtain ⟨s2, i2⟩ := barInit_spec (o := o) s1.good tag (h.bar b).num (h.bar b).den (h.bar b).key i1
+/-- the second half of `Bar.copy()` (bar.py:63-65: copy the sequence, construct a bar on the copy): no hypothesis on the
+    source sequence -/
+theorem barCopyFrom_spec {h : Heap} (hg : Good X h) (tag : Nat) (s : Nat) (num den key : Int) :
+    Spec X h (barInit o tag (seqCopy h s).1 (seqCopy h s).2 num den key).1 ∧
+      In X (barInit o tag (seqCopy h s).1 (seqCopy h s).2 num den key).1
+        (.bar, (barInit o tag (seqCopy h s).1 (seqCopy h s).2 num den key).2) := by
+  obtain ⟨s1, i1⟩ := seqCopy_spec (X := X) hg s
+  obtain ⟨s2, i2⟩ := barInit_spec (o := o) s1.good tag num den key i1
   exact ⟨s1.trans s2, i2⟩
+
+/-- `Bar.copy()` is the read of the source's relative view followed by `barCopyFrom` -/
+theorem barCopy_eq (tag : Nat) (h : Heap) (b : Nat) :
+    barCopy o tag h b = barInit o tag (seqCopy (readRel o h (h.bar b).seq) (h.bar b).seq).1
+      (seqCopy (readRel o h (h.bar b).seq) (h.bar b).seq).2 (h.bar b).num (h.bar b).den (h.bar b).key := rfl
+
+/-- `Bar.copy()`: the source bar's sequence lies in the region (its wrapper may be written: `self.sequence.rel` regenerates a
+    stale relative view, bar.py:59) -/
+theorem barCopy_spec {h : Heap} (hg : Good X h) (tag : Nat) (b : Nat) (hs : In X h (.seq, (h.bar b).seq)) :
+    Spec X h (barCopy o tag h b).1 ∧ In X (barCopy o tag h b).1 (.bar, (barCopy o tag h b).2) := by
+  have s0 := readRel_spec (o := o) hg hs
+  obtain ⟨s1, i1⟩ := barCopyFrom_spec (o := o) s0.good tag (h.bar b).seq (h.bar b).num (h.bar b).den (h.bar b).key
+  exact ⟨s0.trans s1, i1⟩
 
 theorem barTranspose_spec {h : Heap} (hg : Good X h) (tag : Nat) (sh : Bool) (k : Int) {b : Nat}
     (hb : In X h (.bar, b)) : Spec X h (barTranspose o tag sh k h b) := by
@@ -1113,13 +1129,13 @@ theorem trkInit_spec {h : Heap} (hg : Good X h) (tag : Nat) (bars : List Nat) (n
     it3.1 (trk_bars_in t23.good it3)
   exact ⟨s1.trans (t23.trans t4), it3.mono t4.pres⟩
 
-theorem barCopies_spec {h : Heap} (hg : Good X h) (tag : Nat) (bs : List Nat) :
+theorem barCopies_spec {h : Heap} (hg : Good X h) (tag : Nat) (bs : List Nat) (hb : ∀ b ∈ bs, In X h (.bar, b)) :
     Spec X h (barCopies o tag h bs).1 ∧ ∀ b ∈ (barCopies o tag h bs).2, In X (barCopies o tag h bs).1 (.bar, b) := by
   induction bs generalizing h tag with
   | nil => exact ⟨Spec.refl hg, by simp [barCopies]⟩
   | cons b bs ih =>
-    obtain ⟨s1, i1⟩ := barCopy_spec (o := o) (X := X) hg tag b
-    obtain ⟨s2, i2⟩ := ih s1.good (mix tag 3)
+    obtain ⟨s1, i1⟩ := barCopy_spec (o := o) (X := X) hg tag b (bar_seq_in hg (hb b (by simp)))
+    obtain ⟨s2, i2⟩ := ih s1.good (mix tag 3) (fun b' hb' => (hb b' (by simp [hb'])).mono s1.pres)
     refine ⟨s1.trans s2, ?_⟩
     intro c hc
     simp only [barCopies, List.mem_cons] at hc
@@ -1127,10 +1143,10 @@ theorem barCopies_spec {h : Heap} (hg : Good X h) (tag : Nat) (bs : List Nat) :
     · exact i1.mono s2.pres
     · exact i2 c hc
 
-/-- `Track.copy()`: no hypothesis on the source track -/
-theorem trkCopy_spec {h : Heap} (hg : Good X h) (tag : Nat) (t : Nat) :
+/-- `Track.copy()`: the source track lies in the region (the wrappers of its bars' sequences may be written) -/
+theorem trkCopy_spec {h : Heap} (hg : Good X h) (tag : Nat) (t : Nat) (ht : In X h (.trk, t)) :
     Spec X h (trkCopy o tag h t).1 ∧ In X (trkCopy o tag h t).1 (.trk, (trkCopy o tag h t).2) := by
-  obtain ⟨s1, i1⟩ := barCopies_spec (o := o) (X := X) hg tag (h.trk t).bars
+  obtain ⟨s1, i1⟩ := barCopies_spec (o := o) (X := X) hg tag (h.trk t).bars (trk_bars_in hg ht)
   obtain ⟨s2, i2⟩ := trkInit_spec (o := o) s1.good (mix tag 4) _ (h.trk t).name i1
   exact ⟨s1.trans s2, i2⟩
 
@@ -1138,13 +1154,13 @@ theorem trkToSequence_spec {h : Heap} (hg : Good X h) {t : Nat} (ht : In X h (.t
     Spec X h (trkToSequence o h t).1 ∧ In X (trkToSequence o h t).1 (.seq, (trkToSequence o h t).2) :=
   barsToSequence_spec hg _ (trk_bars_in hg ht)
 
-theorem trkCopies_spec {h : Heap} (hg : Good X h) (tag : Nat) (ts : List Nat) :
+theorem trkCopies_spec {h : Heap} (hg : Good X h) (tag : Nat) (ts : List Nat) (ht : ∀ t ∈ ts, In X h (.trk, t)) :
     Spec X h (trkCopies o tag h ts).1 ∧ ∀ t ∈ (trkCopies o tag h ts).2, In X (trkCopies o tag h ts).1 (.trk, t) := by
   induction ts generalizing h tag with
   | nil => exact ⟨Spec.refl hg, by simp [trkCopies]⟩
   | cons t ts ih =>
-    obtain ⟨s1, i1⟩ := trkCopy_spec (o := o) (X := X) hg tag t
-    obtain ⟨s2, i2⟩ := ih s1.good (mix tag 5)
+    obtain ⟨s1, i1⟩ := trkCopy_spec (o := o) (X := X) hg tag t (ht t (by simp))
+    obtain ⟨s2, i2⟩ := ih s1.good (mix tag 5) (fun t' ht' => (ht t' (by simp [ht'])).mono s1.pres)
     refine ⟨s1.trans s2, ?_⟩
     intro c hc
     simp only [trkCopies, List.mem_cons] at hc
@@ -1152,10 +1168,10 @@ theorem trkCopies_spec {h : Heap} (hg : Good X h) (tag : Nat) (ts : List Nat) :
     · exact i1.mono s2.pres
     · exact i2 c hc
 
-/-- `Composition.copy()`: no hypothesis on the source -/
-theorem cmpCopy_spec {h : Heap} (hg : Good X h) (tag : Nat) (c : Nat) :
+/-- `Composition.copy()`: the source composition lies in the region -/
+theorem cmpCopy_spec {h : Heap} (hg : Good X h) (tag : Nat) (c : Nat) (hc : In X h (.cmp, c)) :
     Spec X h (cmpCopy o tag h c).1 ∧ In X (cmpCopy o tag h c).1 (.cmp, (cmpCopy o tag h c).2) := by
-  obtain ⟨s1, i1⟩ := trkCopies_spec (o := o) (X := X) hg tag (h.cmp c)
+  obtain ⟨s1, i1⟩ := trkCopies_spec (o := o) (X := X) hg tag (h.cmp c) (cmp_trks_in hg hc)
   obtain ⟨s2, i2, _⟩ := newCmp_spec s1.good _ i1
   exact ⟨s1.trans s2, i2⟩
 
@@ -1698,7 +1714,7 @@ theorem step_spec {h : Heap} {env : List Cell} (hg : Good X h) (op : HOp)
     split
     · rename_i x hx
       have hx' := hroots _ (pick_one hx)
-      obtain ⟨s1, i1⟩ := barCopy_spec (o := o) (X := X) hg tag x
+      obtain ⟨s1, i1⟩ := barCopy_spec (o := o) (X := X) hg tag x (bar_seq_in hg hx')
       exact ⟨s1, envOr_append (by intro c hc; simp only [List.mem_singleton] at hc; subst hc; exact i1)⟩
     · exact ⟨Spec.refl hg, envOr_refl⟩
   | trkCopy i tag =>
@@ -1707,7 +1723,7 @@ theorem step_spec {h : Heap} {env : List Cell} (hg : Good X h) (op : HOp)
     split
     · rename_i x hx
       have hx' := hroots _ (pick_one hx)
-      obtain ⟨s1, i1⟩ := trkCopy_spec (o := o) (X := X) hg tag x
+      obtain ⟨s1, i1⟩ := trkCopy_spec (o := o) (X := X) hg tag x hx'
       exact ⟨s1, envOr_append (by intro c hc; simp only [List.mem_singleton] at hc; subst hc; exact i1)⟩
     · exact ⟨Spec.refl hg, envOr_refl⟩
   | cmpCopy i tag =>
@@ -1716,7 +1732,7 @@ theorem step_spec {h : Heap} {env : List Cell} (hg : Good X h) (op : HOp)
     split
     · rename_i x hx
       have hx' := hroots _ (pick_one hx)
-      obtain ⟨s1, i1⟩ := cmpCopy_spec (o := o) (X := X) hg tag x
+      obtain ⟨s1, i1⟩ := cmpCopy_spec (o := o) (X := X) hg tag x hx'
       exact ⟨s1, envOr_append (by intro c hc; simp only [List.mem_singleton] at hc; subst hc; exact i1)⟩
     · exact ⟨Spec.refl hg, envOr_refl⟩
   | trkToSequence i =>
